@@ -22,8 +22,10 @@ Init == lx \in 1..Len(Vals) /\ rx \in 1..Len(Vals)
 Next == UNCHANGED <<lx, rx>>
 Spec == Init /\ [][Next]_<<lx, rx>>
 
-L == MapT(<<S("str", "k"), S("str", "z")>>, <<Vals[lx], Sc("int", "1")>>)
-R == MapT(<<S("str", "n"), S("str", "k")>>, <<Sc("int", "2"), Vals[rx]>>)
+\* "z" is a second key present on both sides; its right-hand value 1 is the very object CPython shares with every other
+\* 1 of the document (Vals[1], the elements of Vals[4], Vals[5]): a rule must govern its own path only
+L == MapT(<<S("str", "k"), S("str", "z")>>, <<Vals[lx], Sc("int", "5")>>)
+R == MapT(<<S("str", "n"), S("str", "k"), S("str", "z")>>, <<Sc("int", "2"), Vals[rx], Sc("int", "1")>>)
 lhs == TabOf(L)
 doc == TabOf(R)
 fresh == TRUE
